@@ -45,6 +45,7 @@ type FuncContract struct {
 	Line      int
 	Props     []string // property ids this contract serves (prop C10,C23)
 	InlineMax int
+	AtCall    map[string][]Clause
 }
 
 func (c *FuncContract) Key() string { return c.Pkg + "." + c.Name }
@@ -73,7 +74,8 @@ func NewContractSet() *ContractSet {
 }
 
 var clauseKW = map[string]bool{"requires": true, "ensures": true, "modifies": true, "loop": true, "lock-balanced": true,
-	"terminates": true, "thin": true, "nopanic": true, "mode": true, "params": true, "prop": true, "pure": true, "noinline": true, "trusted": true}
+	"terminates": true, "thin": true, "nopanic": true, "mode": true, "params": true, "prop": true, "pure": true, "noinline": true, "trusted": true,
+	"at-call": true, "nodeadlock": true, "inline-all": true}
 
 // ParseContractFile reads //@ lines. pkgPath is the package the file belongs to ("" for dep files,
 // which must then use full names "pkgpath.Func").
@@ -248,6 +250,21 @@ func (cs *ContractSet) ParseContractFile(path, pkgPath string) error {
 				default:
 					return fmt.Errorf("%s:%d: bad loop clause kind %q", path, l.n, sub)
 				}
+			case "at-call":
+				// at-call <callee short name> assert <expr>: checked in the caller's state right
+				// before every call of that callee (old() is the caller's entry state)
+				if len(f) < 4 || f[2] != "assert" {
+					return fmt.Errorf("%s:%d: at-call <callee> assert <expr>", path, l.n)
+				}
+				srest := strings.TrimSpace(l.s[strings.Index(l.s, " assert ")+8:])
+				c, err := mk(srest)
+				if err != nil {
+					return err
+				}
+				if cur.AtCall == nil {
+					cur.AtCall = map[string][]Clause{}
+				}
+				cur.AtCall[f[1]] = append(cur.AtCall[f[1]], c)
 			case "mode":
 				cur.Mode = rest
 			case "params":
